@@ -9,6 +9,8 @@
  * AVL keys are integers (stored in the void* itself, compared as integers); hash and
  * trie keys are byte strings written in hex ("-" = empty string). Values are small
  * integers stored in the void*. */
+/* container operations take microseconds: a 20 s watchdog per operation */
+#define VH_OP_TIMEOUT 20
 #include "vharness.h"
 #include "muggle/c/dsaa/avl_tree.h"
 #include "muggle/c/dsaa/hash_table.h"
